@@ -8,7 +8,7 @@ RULE = (
     'A run is one fault sequence on the real controller_nonMPI with the real Adaptivity/AdaptivityRK, StepSizeLimiter, '
     'StepSizeSlopeLimiter, BasicRestartingNonMPI and SpreadStepSizesBlockwiseNonMPI. Part A (stub physics): error estimates come '
     'from a script with a physical background c*dt^(order+1) times noise plus injected excursions, exact ties and runs of failures '
-    'longer than the retry budget, and direct restart requests; part B: real adaptive runs (embedded SDC estimate, embedded RK) on '
+    'longer than the retry budget, and direct restart requests; part B: real adaptive runs (embedded SDC estimate, embedded RK, polynomial-interpolation and extrapolation estimates on converged collocation problems) on '
     'van der Pol / Lorenz / test equation with random tolerances. Monitors at control orders -49 and 97 read the proposal before '
     'and after the limiters. Oracles R1 (restart position/value), R2 (one dt per block), R3 (retry budget, counter hand-over, '
     'progress), R4 (accept criterion), R5 (proposal formula and limiter reference), R6 (retry is smaller). Non-trivial = at least '
@@ -17,19 +17,19 @@ RULE = (
 COMPONENTS_REAL = ['Adaptivity, AdaptivityRK, EstimateEmbeddedError, StepSizeLimiter, StepSizeSlopeLimiter, BasicRestartingNonMPI, SpreadStepSizesBlockwiseNonMPI', 'controller_nonMPI', 'generic_implicit / RK sweepers, testequation0d, vanderpol, LorenzAttractor']
 COMPONENTS_STUB = ['part A: the value of the embedded error estimate is overwritten by the script at control order -60 (after the real estimator, before Adaptivity)']
 ASSUMPTIONS = ['beta = 1 with an exact tie is left out (the formula then proposes the same step again)', 'liveness is not asserted for adversarial scripts without dt_min: runs that hit the block/step cap are skipped and counted',
-               'AdaptivityPolynomialError / AdaptivityExtrapolationWithinQ are not yet driven (part B covers embedded SDC and embedded RK)']
-PROBES = ['restart_at_later_slot', 'same_step_restarted_twice', 'retry_budget_exhausted_crash', 'retry_budget_exhausted_moved_on', 'exact_tie_e_est_equals_e_tol', 'restart_near_Tend', 'step_size_changed']
+               'part B drives Adaptivity (embedded SDC), AdaptivityRK (embedded RK), AdaptivityPolynomialError and AdaptivityExtrapolationWithinQ; AdaptivityCollocation and AdaptivityResidual are not driven']
+PROBES = ['restart_at_later_slot', 'same_step_restarted_twice', 'retry_budget_exhausted_crash', 'retry_budget_exhausted_moved_on', 'exact_tie_e_est_equals_e_tol', 'restart_near_Tend', 'step_size_changed', 'converged_collocation_proposal_checked', 'collocation_problem_not_converged_restart']
 
 
 def plan(tier):
     if tier == 'thorough':
         return {'n': 300000, 'chunk': 300, 'timeout': 300, 'selftest': 60, 'budget_s': 7200, 'minimize_s': 300}
-    return {'n': 6000, 'chunk': 100, 'timeout': 300, 'selftest': 12, 'budget_s': 900, 'minimize_s': 120}
+    return {'n': 4500, 'chunk': 90, 'timeout': 300, 'selftest': 12, 'budget_s': 900, 'minimize_s': 120}
 
 
 def generate(seed, tier, index):
     r = rng_for(seed, PROP, index)
-    if r.random() < 0.12:
+    if r.random() < 0.15:
         return workloads.c09_real(r)
     return workloads.c09_injected(r)
 
